@@ -183,6 +183,7 @@ type Sim struct {
 	timers    timerHeap
 	ownerSeq  map[int]int
 	goids     map[uint64]*Task
+	stallName string
 	sib       map[uint64]int // goroutine -> 1 + piece of the workqueue.ParallelizeUntil worker (0: none)
 	arrSeq    int
 	start     time.Time
@@ -681,6 +682,27 @@ func hashStr(x string) uint64 {
 	return h.Sum64()
 }
 
+// stalled: is c the run's stalled controller (fault kind ctrl.stall)? Only while faults are on.
+func (s *Sim) stalled(c *Ctrl) bool {
+	if s.Knobs.StallPick <= 0 || !s.FaultsOn || s.SettleMode {
+		return false
+	}
+	if s.stallName == "" {
+		names := make([]string, 0, len(s.Mgr.Ctrls))
+		for _, x := range s.Mgr.Ctrls {
+			names = append(names, x.Name)
+		}
+		if len(names) == 0 {
+			return false
+		}
+		sort.Strings(names)
+		s.stallName = names[(s.Knobs.StallPick-1)%len(names)]
+		s.Stat("fault.ctrl.stall")
+		s.Logf("env  stalled controller: %s", s.stallName)
+	}
+	return c.Name == s.stallName
+}
+
 // StepOnce performs one scheduling step. It returns false when nothing at all is enabled.
 func (s *Sim) StepOnce() bool { return s.StepOpt(true) }
 
@@ -729,7 +751,11 @@ func (s *Sim) StepOpt(allowTime bool) bool {
 	// 3. ready tasks
 	for _, r := range s.Mgr.Ready() {
 		r := r
-		cands = append(cands, cand{"start " + r.c.Name + " " + r.req.String(), r.c.weight(s.Knobs.WStart), func() { s.Mgr.Start(r.c, r.req) }})
+		w := r.c.weight(s.Knobs.WStart)
+		if s.stalled(r.c) {
+			w = max(1, w/40)
+		}
+		cands = append(cands, cand{"start " + r.c.Name + " " + r.req.String(), w, func() { s.Mgr.Start(r.c, r.req) }})
 	}
 	// 4. other parked calls
 	for _, c := range parked {
